@@ -163,7 +163,14 @@ def judge_events(events: list, body: bytes, taints: list, benign_docs: dict | No
                 p.message += f' in {ev.string[:240]!r}'
             found.append((ev.encoder, ev.kind, p))
         if is_json:
-            doc, problems = oracle.judge_json(ev.string, ev.kind, ev.mode, ver[ev.encoder], bool(body))
+            # the record is what the API process reads: the octets Processes.write put on the pipe (its writer escapes what
+            # is not ASCII with backslashreplace, and \\xNN / \\UNNNNNNNN are not JSON escapes), not the encoder's string
+            on_pipe = ev.string
+            if ev.written is not None and ev.write_error is None:
+                on_pipe = ev.written.decode('ascii', 'replace')
+                if on_pipe != ev.string + '\n' and on_pipe != ev.string:
+                    classes.append('json-line-changed-by-the-pipe-writer')
+            doc, problems = oracle.judge_json(on_pipe, ev.kind, ev.mode, ver[ev.encoder], bool(body))
             for p in problems:
                 p.message += f' | {ev.string[:200]!r}' if p.clause == 'envelope' else ''
                 found.append((ev.encoder, ev.kind, p))
